@@ -29,14 +29,19 @@ Inductive ikind :=
 | KSetState (k v : str)        (* set_state *)
 | KSuffix (s : str)            (* field_name_suffix *)
 | KAddCond (f v : str).        (* add_condition {f: v} *)
-(* uid = identity of the Python object; id = its `identifier`; cond = one optional rule condition
-   `processing_state key == val` *)
-Record pitem := { i_uid : N; i_id : str; i_kind : ikind; i_cond : option (str * str) }.
+(* one optional rule condition of an item *)
+Inductive pcond :=
+| CNone
+| CState (k v : str)           (* processing_state: pipeline.state[k] == v *)
+| CApplied (id : str).         (* processing_item_applied: the rule was processed by the item with this identifier,
+                                  a transformation item or a query post-processing item *)
+(* uid = identity of the Python object; id = its `identifier` *)
+Record pitem := { i_uid : N; i_id : str; i_kind : ikind; i_cond : pcond }.
 Inductive pkind :=
 | PEmbed (pre suf : str)       (* embed *)
 | PTplState (k : str)          (* simple_template "{query}|{pipeline.state[k]}" *)
 | PTplVar (k : str).           (* simple_template "{query}|{pipeline.vars[k]}" *)
-Record ppost := { q_uid : N; q_id : str; q_kind : pkind; q_cond : option (str * str) }.
+Record ppost := { q_uid : N; q_id : str; q_kind : pkind; q_cond : pcond }.
 Record pfin := { f_uid : N; f_sep : str; f_pre : str; f_suf : str }.   (* concat finalizer *)
 
 Record apipe := { a_items : list pitem; a_post : list ppost; a_fin : list pfin; a_vars : dict }.
@@ -81,16 +86,19 @@ Inductive fmt := FDefault | FTest | FState.
 Record tstate := { t_conj : list (str * str);   (* conjuncts of the condition, in query order *)
                    t_state : dict;              (* pipeline.state *)
                    t_applied : list bool;       (* pipeline.applied *)
-                   t_ids : list str }.          (* pipeline.applied_ids (in order of first insertion) *)
-Definition cond_holds (st : dict) (c : option (str * str)) : bool :=
+                   t_ids : list str;            (* pipeline.applied_ids (in order of first insertion) *)
+                   t_rids : list str }.         (* rule.applied_processing_items: what the rule was processed by so far *)
+(* the condition of item i is evaluated in the situation left by the items before it *)
+Definition cond_holds (st : dict) (rids : list str) (c : pcond) : bool :=
   match c with
-  | None => true
-  | Some (k, v) => match lookup k st with Some v' => str_eqb v' v | None => false end
+  | CNone => true
+  | CState k v => match lookup k st with Some v' => str_eqb v' v | None => false end
+  | CApplied i => existsb (str_eqb i) rids
   end.
 Definition add_id (ids : list str) (i : str) : list str :=
   if existsb (str_eqb i) ids then ids else ids ++ [i].
 Definition a_item_step (t : tstate) (i : pitem) : tstate :=
-  if cond_holds (t_state t) (i_cond i) then
+  if cond_holds (t_state t) (t_rids t) (i_cond i) then
     let conj := match i_kind i with
                 | KSuffix s => map (fun fv => (fst fv ++ s, snd fv)) (t_conj t)
                 | KAddCond f v => (f, v) :: t_conj t
@@ -98,12 +106,12 @@ Definition a_item_step (t : tstate) (i : pitem) : tstate :=
                 end in
     let st := match i_kind i with KSetState k v => dset (t_state t) k v | _ => t_state t end in
     {| t_conj := conj; t_state := st; t_applied := t_applied t ++ [true];
-       t_ids := add_id (t_ids t) (i_id i) |}
+       t_ids := add_id (t_ids t) (i_id i); t_rids := add_id (t_rids t) (i_id i) |}
   else
     {| t_conj := t_conj t; t_state := t_state t; t_applied := t_applied t ++ [false];
-       t_ids := t_ids t |}.
+       t_ids := t_ids t; t_rids := t_rids t |}.
 Definition t_init (r : rule) : tstate :=
-  {| t_conj := [(r_field r, r_value r)]; t_state := []; t_applied := []; t_ids := [] |}.
+  {| t_conj := [(r_field r, r_value r)]; t_state := []; t_applied := []; t_ids := []; t_rids := [] |}.
 Definition stage_transform (its : list pitem) (r : rule) : tstate :=
   fold_left a_item_step its (t_init r).
 
@@ -130,29 +138,34 @@ Definition stage_convert (f : fmt) (r : rule) (t : tstate) : list str :=
   let q := fmt_query f (t_state t) (query_of (t_conj t)) in
   if r_two r then [q; q] else [q].
 
-(* stage 3: post-processing of one emitted query, in item order *)
-Definition a_post_step (st vars : dict) (acc : outcome (str * list str)) (p : ppost)
-  : outcome (str * list str) :=
-  obind acc (fun qi =>
-    if cond_holds st (q_cond p) then
+(* stage 3: post-processing of one emitted query, in item order; the accumulator is the query, the
+   pipeline's applied_ids and what the rule was processed by (embed marks the rule, simple_template
+   does not); the latter two carry over to the next query of the same rule *)
+Record pacc := { pa_q : str; pa_ids : list str; pa_rids : list str }.
+Definition post_mark (p : ppost) (q : str) (a : pacc) (mark : bool) : pacc :=
+  {| pa_q := q; pa_ids := add_id (pa_ids a) (q_id p);
+     pa_rids := if mark then add_id (pa_rids a) (q_id p) else pa_rids a |}.
+Definition a_post_step (st vars : dict) (acc : outcome pacc) (p : ppost) : outcome pacc :=
+  obind acc (fun a =>
+    if cond_holds st (pa_rids a) (q_cond p) then
       match q_kind p with
-      | PEmbed a b => Ok (a ++ fst qi ++ b, add_id (snd qi) (q_id p))
+      | PEmbed x y => Ok (post_mark p (x ++ pa_q a ++ y) a true)
       | PTplState k => match lookup k st with
-                       | Some v => Ok (fst qi ++ [124] ++ v, add_id (snd qi) (q_id p))
+                       | Some v => Ok (post_mark p (pa_q a ++ [124] ++ v) a false)
                        | None => Crash C_Key end
       | PTplVar k => match lookup k vars with
-                     | Some v => Ok (fst qi ++ [124] ++ v, add_id (snd qi) (q_id p))
+                     | Some v => Ok (post_mark p (pa_q a ++ [124] ++ v) a false)
                      | None => Crash C_Key end
       end
-    else Ok qi).
-Definition stage_post_one (ps : list ppost) (st vars : dict) (q : str) (ids : list str) :=
-  fold_left (a_post_step st vars) ps (Ok (q, ids)).
-Fixpoint stage_post (ps : list ppost) (st vars : dict) (qs : list str) (ids : list str)
+    else Ok a).
+Definition stage_post_one (ps : list ppost) (st vars : dict) (q : str) (ids rids : list str) :=
+  fold_left (a_post_step st vars) ps (Ok {| pa_q := q; pa_ids := ids; pa_rids := rids |}).
+Fixpoint stage_post (ps : list ppost) (st vars : dict) (qs : list str) (ids rids : list str)
   : outcome (list str * list str) :=
   match qs with
   | [] => Ok ([], ids)
-  | q :: qs' => obind (stage_post_one ps st vars q ids) (fun qi =>
-                obind (stage_post ps st vars qs' (snd qi)) (fun r => Ok (fst qi :: fst r, snd r)))
+  | q :: qs' => obind (stage_post_one ps st vars q ids rids) (fun a =>
+                obind (stage_post ps st vars qs' (pa_ids a) (pa_rids a)) (fun r => Ok (pa_q a :: fst r, snd r)))
   end.
 
 (* stage 4: finalizers, once, on the whole output (a list, or the string made by an earlier one:
@@ -170,7 +183,7 @@ Record racc := { ra_qs : list str; ra_obs : list (list bool * dict); ra_ids : li
 Definition abs_rule (f : fmt) (P : apipe) (acc : outcome racc) (r : rule) : outcome racc :=
   obind acc (fun a =>
     let t := stage_transform (a_items P) r in
-    obind (stage_post (a_post P) (t_state t) (a_vars P) (stage_convert f r t) (t_ids t)) (fun qi =>
+    obind (stage_post (a_post P) (t_state t) (a_vars P) (stage_convert f r t) (t_ids t) (t_rids t)) (fun qi =>
     Ok {| ra_qs := ra_qs a ++ fst qi; ra_obs := ra_obs a ++ [(t_applied t, t_state t)];
           ra_ids := snd qi |})).
 Definition abs_run (f : fmt) (P : apipe) (rules : list rule) : outcome result :=
